@@ -349,11 +349,11 @@ class Runner:
         if q.replay == 'ir':
             script.append('gcc -std=gnu99 $OPT -w -c %s -o $T/nd.o || exit 99' % os.path.join(VERIF, 'harness', 'replay_nondet.c'))
             objs.append('$T/nd.o')
-        script.append('%s %s %s $T/h.o %s $T/libskinny.a -o $T/replay || exit 99' % (link, ' '.join(san), '-no-pie -Wl,--unresolved-symbols=ignore-all' if q.replay == 'ir' else '', ' '.join(objs)))
-        script.append('echo "== real code built with $OPT, inputs from the solver"; MALLOC_PERTURB_=165 $T/replay; rc=$?')
+        script.append('%s %s %s $T/h.o %s $T/libskinny.a -o $T/replay || exit 99' % (link, ' '.join(san), '-Wl,--allow-multiple-definition' + (' -no-pie -Wl,--unresolved-symbols=ignore-all' if q.replay == 'ir' else ''), ' '.join(objs)))
+        script.append('echo "== real code built with $OPT, inputs from the solver"; ASAN_OPTIONS=detect_odr_violation=0 MALLOC_PERTURB_=165 $T/replay; rc=$?')
         script.append('if [ $rc -ne 0 ] && [ $rc -ne 3 ]; then worst=$rc; break; fi')
         script.append('for S in 1 2 3 4 5 6 7 8 9 10 11 12 13 14 15 16 17 18 19 20 21 22 23 24; do')
-        script.append('  MALLOC_PERTURB_=165 $T/replay $S > $T/out.txt 2>&1; rc=$?')
+        script.append('  ASAN_OPTIONS=detect_odr_violation=0 MALLOC_PERTURB_=165 $T/replay $S > $T/out.txt 2>&1; rc=$?')
         script.append('  if [ $rc -ne 0 ] && [ $rc -ne 3 ]; then echo "== real code built with $OPT, same harness, random inputs (seed $S)"; cat $T/out.txt; worst=$rc; break 2; fi')
         script.append('done')
         script.append('done')
